@@ -95,6 +95,8 @@ func run(family string, line []byte, rec *recorder, opt string) {
 		runPES(line, rec)
 	case "desc":
 		runDesc(line, rec)
+	case "psi":
+		runPSI(line, rec)
 	case "demux", "pair", "merge", "skip", "rewind", "rfault", "reader", "robust":
 		var sc streamScenario
 		if err := json.Unmarshal(line, &sc); err != nil {
